@@ -66,7 +66,8 @@ def cases(rng, tier):
         elif init == "farray":       # per-key pseudo-counts that are not integers
             init = [rng.choice([0.5, 1.5, 2.25, 0.0, 7.75]) for _ in keys]
         batches = [_batch(rng, keys, absent) for _ in range(rng.randint(1, 5))]
-        out.append({"keys": keys, "kdtype": dt, "mod": mod, "init": init, "batches": batches, "pseed": rng.randint(0, 999)})
+        out.append({"keys": keys, "kdtype": dt, "mod": mod, "init": init, "batches": batches, "pseed": rng.randint(0, 999),
+                    "idt": rng.choice([None, None, "uint8", "uint16", "uint32", "uint64", "int32", "int16"])})
     # small moduli with a PRESCRIBED pattern of bucket sizes (1..3 keys per bucket, some buckets empty) and short batches that walk
     # through the buckets in every order: the (sample, offset-in-bucket) bookkeeping sees rows of unequal lengths
     for _ in range(200 if tier == "quick" else 3000):
@@ -157,6 +158,13 @@ def _batches(p):
     return out
 
 
+def _idt(p):
+    """element type of a per-key initial array: numpy's default, or (idt) a narrower / unsigned integer type"""
+    if p.get("idt") and all(isinstance(v, int) and 0 <= v < 100 for v in p["init"]):
+        return p["idt"]
+    return None
+
+
 def _mk(p, shared=None):
     from npstructures import Counter
     kd = np.dtype(p["kdtype"])
@@ -165,7 +173,7 @@ def _mk(p, shared=None):
     if p["init"] == "default":
         return Counter(keys, **kw), kd
     if isinstance(p["init"], list):
-        return Counter(keys, np.array(p["init"]) if shared is None else shared[1], **kw), kd
+        return Counter(keys, np.array(p["init"], dtype=_idt(p)) if shared is None else shared[1], **kw), kd
     if isinstance(p["init"], float):
         return Counter(keys, p["init"], value_dtype=float, **kw), kd
     return Counter(keys, p["init"], **kw), kd
@@ -178,7 +186,7 @@ def _totals(c, p, kd):
 def run_impl(p):
     def g():
         kd0 = np.dtype(p["kdtype"])
-        shared = (np.array(p["keys"], dtype=kd0), np.array(p["init"]) if isinstance(p["init"], list) else None)
+        shared = (np.array(p["keys"], dtype=kd0), np.array(p["init"], dtype=_idt(p)) if isinstance(p["init"], list) else None)
         keep = (shared[0].copy(), None if shared[1] is None else shared[1].copy())
         c, kd = _mk(p, shared)
         twin, _ = _mk(p, shared)           # a second counter built from the SAME key / initial-value arrays, never counted into
